@@ -57,14 +57,16 @@ def run(ctx):
                 return [data[i:i + 1] for i in range(len(data))]
             cs = sorted(r.sample(range(1, len(data)), min(r.randint(1, 8), len(data) - 1)))
             return [data[a:b] for a, b in zip([0] + cs, cs + [len(data)])]
-        vch, sch = chunked(vstream), chunked(sstream)
+        # the viewer sends nothing beyond ClientInit before it has received ServerInit: chunk the two parts separately
+        vch, sch = chunked(vstream[:len(hs)]) + chunked(vstream[len(hs):]), chunked(sstream)
         # any interleaving a real session allows: ServerInit follows ClientInit, data in the selected format follows SetPixelFormat
         order = []
         vi_ = si2 = 0
         vsent = ssent = 0
         while vi_ < len(vch) or si2 < len(sch):
             can_s = si2 < len(sch) and vsent >= len(hs) and (ssent + len(sch[si2]) <= len(sinit) or vsent >= len(hs) + len(spf))
-            if vi_ < len(vch) and (not can_s or r.random() < .5):
+            can_v = vi_ < len(vch) and (vsent < len(hs) or ssent >= len(sinit))
+            if can_v and (not can_s or r.random() < .5):
                 order.append("v"); vsent += len(vch[vi_]); vi_ += 1
             elif can_s:
                 order.append("s"); ssent += len(sch[si2]); si2 += 1
